@@ -313,4 +313,16 @@ theorem C05_keep (L : Layout) (hL : NoAbs L) (x : Sys) (hx : ReachableEv L x) (e
               · exact r1.2 hx
               · simp at hx⟩
 
+/-! Non-vacuity of `C05_keep` / `C05_release_keeps`: layout `LEFTSHIFT → LEFTCTRL` (a modifier remapping, LEFTCTRL
+exclusively its own) and `A → B`.  While LEFTSHIFT is held (LEFTCTRL down), pressing and releasing A leaves LEFTCTRL
+down and never releases it; the release of A lifts B only. -/
+example :
+    let L : Layout := [⟨[42], [29], Repeat.normal, []⟩, ⟨[30], [48], Repeat.normal, []⟩]
+    let s1 := (run L State.init [Event.pressed 42]).1
+    let s2 := (step L s1 (Event.pressed 30)).1
+    noAbsLayout L = true ∧ held s1 = [29] ∧
+    (step L s1 (Event.pressed 30)).2.events = [Event.pressed 48] ∧ 29 ∈ held s2 ∧
+    (step L s2 (Event.released 30)).2.events = [Event.released 48] ∧ 29 ∈ held (step L s2 (Event.released 30)).1 := by
+  decide
+
 end TmVerif
